@@ -19,7 +19,7 @@ Theorem prefix5_unregistered_rejected (L : stdlib) kd idreq :
 Proof.
   intros H. unfold modelled_url in H.
   repeat match type of H with _ || _ = false => let H2 := fresh "U" in apply orb_false_iff in H; destruct H as [H H2] end.
-  unfold Untrusted.parse_key, parse_key_more. cbv zeta.
+  unfold Untrusted.parse_key, Untrusted.parse_key_base, parse_key_more. cbv zeta.
   repeat match goal with U : url_is kd ?u = false |- _ => rewrite U; clear U end.
   reflexivity.
 Qed.
